@@ -296,34 +296,44 @@ func ruleNullValue(c *Ctx) {
 			if !ok || isFailureReturnLoose(f, r) {
 				continue
 			}
-			wrote := false
-			for _, d := range f.Blocks {
-				if !(d == b || d.Dominates(b)) {
-					continue
-				}
-				for _, in := range d.Instrs {
-					switch x := in.(type) {
-					case *ssa.Store:
-						if fa, ok := x.Addr.(*ssa.FieldAddr); ok && fieldName(fa) != "Valid" {
-							if rr := rootOf(x.Addr); rr.kind == rkParam && isPtrParam(f, rr.base) {
-								wrote = true
+			anchors := successAnchors(f, r)
+			if len(anchors) == 0 {
+				continue
+			}
+			wrote := true
+			for _, a := range anchors {
+				wroteA := false
+				for _, d := range f.Blocks {
+					if !(d == a || d.Dominates(a)) {
+						continue
+					}
+					for _, in := range d.Instrs {
+						switch x := in.(type) {
+						case *ssa.Store:
+							if fa, ok := x.Addr.(*ssa.FieldAddr); ok && fieldName(fa) != "Valid" {
+								if rr := rootOf(x.Addr); rr.kind == rkParam && isPtrParam(f, rr.base) {
+									wroteA = true
+								}
 							}
-						}
-					case *ssa.Call:
-						cc := x.Common()
-						if cal := cc.StaticCallee(); cal != nil && cal.Name() == "SetValid" {
-							wrote = true
-						}
-						if cc.IsInvoke() || (cc.StaticCallee() != nil && cc.StaticCallee().Name() == "Read") {
-							for _, a := range cc.Args {
-								if isUnsafePointer(a.Type()) {
-									if rr := rootOf(a); rr.kind == rkParam && isPtrParam(f, rr.base) {
-										wrote = true
+						case *ssa.Call:
+							cc := x.Common()
+							if cal := cc.StaticCallee(); cal != nil && cal.Name() == "SetValid" {
+								wroteA = true
+							}
+							if cc.IsInvoke() || (cc.StaticCallee() != nil && cc.StaticCallee().Name() == "Read") {
+								for _, ar := range cc.Args {
+									if isUnsafePointer(ar.Type()) {
+										if rr := rootOf(ar); rr.kind == rkParam && isPtrParam(f, rr.base) {
+											wroteA = true
+										}
 									}
 								}
 							}
 						}
 					}
+				}
+				if !wroteA {
+					wrote = false
 				}
 			}
 			c.Oblige("T.null.value", wrote, r.Pos(), name, "success return writes the value",
